@@ -41,25 +41,17 @@ theorem nodup_map_absEv {R : Res} {f0 : Forest} {tr : List Ev} (h : (tr.map Ev.k
 
 /-- The facts that make one event a step of a collision-free run. -/
 def EvFree (R : Res) (f0 : Forest) (ev : Ev) : Prop :=
-  (absEv R f0 ev).roots.Nodup ∧ NoRpcTarget (viewOf ev.before) (absEv R f0 ev) ∧
-    ¬ (absEv R f0 ev).Collides (viewOf ev.before)
-
-theorem NoRpcTarget.mono {v w : View} {A : Aug} (h : NoRpcTarget w A) (hvw : ∀ l d, v l d → w l d) :
-    NoRpcTarget v A := fun t ht d hd => h t ht d (hvw t d hd)
+  (absEv R f0 ev).roots.Nodup ∧ ¬ (absEv R f0 ev).Collides (viewOf ev.before)
 
 /-- A chain that leaves no `duplicate-node` error on a visible node was collision-free. -/
 theorem chain_free_of_no_dup_err {R : Res} {f0 f f' : Forest} {tr : List Ev} (h : Chain R f0 f tr f')
-    (hnr : ∀ ev ∈ tr, NoRpcTarget (viewOf f') (absEv R f0 ev))
     (hfree : ∀ er, FVisErr f' er → er.cls ≠ "duplicate-node") : ∀ ev ∈ tr, EvFree R f0 ev := by
   induction h with
   | nil _ _ => intro ev hev; cases hev
   | @cons f f2 f' ev tr hv hle hatt hrest ih =>
     intro ev' hev'
     rcases List.mem_cons.mp hev' with rfl | hev'
-    · have hle2 : FLe ev'.before f' := (attempt_ok_le hatt).trans hrest.le
-      have hnr' : NoRpcTarget (viewOf ev'.before) (absEv R f0 ev') :=
-        (hnr ev' List.mem_cons_self).mono (fun l d h => hle2.view h)
-      obtain ⟨_, _, _, herr⟩ := attempt_ok hatt f0 rfl
+    · obtain ⟨_, _, _, herr⟩ := attempt_ok hatt f0 rfl
       have hgood : (absEv R f0 ev').roots.Nodup ∧ ¬ (absEv R f0 ev').Collides (viewOf ev'.before) := by
         apply Classical.byContradiction
         intro hbad
@@ -69,10 +61,10 @@ theorem chain_free_of_no_dup_err {R : Res} {f0 f f' : Forest} {tr : List Ev} (h 
             apply Classical.byContradiction
             intro h2; exact hbad ⟨h1, h2⟩
           · exact Or.inl h1
-        have := (herr hnr' hbad').mono hrest.le
+        have := (herr hbad').mono hrest.le
         exact hfree _ this rfl
-      exact ⟨hgood.1, hnr', hgood.2⟩
-    · exact ih (fun e he => hnr e (List.mem_cons_of_mem _ he)) hfree ev' hev'
+      exact hgood
+    · exact ih hfree ev' hev'
 
 /-- A collision-free chain is a run of the reference semantics. -/
 theorem chain_valid {R : Res} {f0 f f' : Forest} {tr : List Ev} (P : Aug → Prop) (h : Chain R f0 f tr f')
@@ -82,10 +74,10 @@ theorem chain_valid {R : Res} {f0 f f' : Forest} {tr : List Ev} (P : Aug → Pro
   | nil hv _ => exact ⟨trivial, hv⟩
   | @cons f f2 f' ev tr hv hle hatt hrest ih =>
     simp only [List.map_cons, List.nodup_cons] at hnd
-    obtain ⟨hfr1, hfr2, hfr3⟩ := hfree ev List.mem_cons_self
+    obtain ⟨hfr1, hfr3⟩ := hfree ev List.mem_cons_self
     obtain ⟨_, happ, hgraft, _⟩ := attempt_ok hatt f0 rfl
     have hview2 : viewOf f2 = graft (viewOf f) (absEv R f0 ev) := by
-      rw [← hv]; exact hgraft hfr2 hfr1 hfr3
+      rw [← hv]; exact hgraft hfr1 hfr3
     obtain ⟨ih1, ih2⟩ := ih (fun e he => hP e (List.mem_cons_of_mem _ he)) hnd.2
       (fun e he => hfree e (List.mem_cons_of_mem _ he))
     rw [hview2] at ih1 ih2
@@ -97,7 +89,7 @@ theorem chain_valid {R : Res} {f0 f f' : Forest} {tr : List Ev} (P : Aug → Pro
 and it is itself a run of the reference semantics. -/
 theorem chain_inside {R : Res} {f0 : Forest} (P : Aug → Prop) (v0 : View) (hp0 : PrefixClosed v0)
     (seq1 : List Aug) (hv1 : Valid P v0 seq1) (hc1 : Complete P v0 seq1)
-    (hnr1 : ∀ A, P A → NoRpcTarget (after v0 seq1) A) (hnd1 : ∀ A ∈ seq1, A.roots.Nodup) :
+    (hnd1 : ∀ A ∈ seq1, A.roots.Nodup) :
     ∀ {f f' : Forest} {tr : List Ev}, Chain R f0 f tr f' → ∀ pre, Valid P v0 pre → viewOf f = after v0 pre →
       (∀ ev ∈ tr, P (absEv R f0 ev)) → (pre ++ tr.map (absEv R f0)).Nodup →
       Valid P v0 (pre ++ tr.map (absEv R f0)) ∧ viewOf f' = after v0 (pre ++ tr.map (absEv R f0)) ∧
@@ -123,20 +115,185 @@ theorem chain_inside {R : Res} {f0 : Forest} (P : Aug → Prop) (v0 : View) (hp0
     obtain ⟨hsub, hst⟩ := subsumed P v0 seq1 hc1 (pre ++ [absEv R f0 ev]) v0 (fun l d h => after_mono v0 seq1 h)
       (valid_mem P v0 _ hvalid') (valid_applicable P v0 _ hvalid')
     have hin1 : absEv R f0 ev ∈ seq1 := hsub _ (by simp)
-    have hnr : NoRpcTarget (after v0 pre) (absEv R f0 ev) := by
-      refine (hnr1 _ hPA).mono ?_
-      intro l d hd
-      apply hst
-      rw [after_append]
-      exact Or.inr hd
     have hview2 : viewOf f2 = after v0 (pre ++ [absEv R f0 ev]) := by
-      rw [after_append]; exact hgraft hnr (hnd1 _ hin1) hncol
+      rw [after_append]; exact hgraft (hnd1 _ hin1) hncol
     obtain ⟨ih1, ih2, ih3⟩ := ih (pre ++ [absEv R f0 ev]) hvalid' hview2
       (fun e he => hP e (List.mem_cons_of_mem _ he)) (by simpa [List.append_assoc] using hnd)
     refine ⟨by simpa [List.append_assoc] using ih1, by simpa [List.append_assoc] using ih2, ?_⟩
     intro e he
     rcases List.mem_cons.mp he with rfl | he
-    · exact ⟨hnd1 _ hin1, by rw [hbefore]; exact hnr, by rw [hbefore]; exact hncol⟩
+    · exact ⟨hnd1 _ hin1, by rw [hbefore]; exact hncol⟩
     · exact ih3 e he
+
+/-! ### the loop performs a complete run -/
+
+theorem chain_before_le {R : Res} {f0 f f' : Forest} {tr : List Ev} (h : Chain R f0 f tr f') :
+    ∀ ev ∈ tr, FLe ev.before f' ∧ (absEv R f0 ev).Applicable (viewOf ev.before) := by
+  induction h with
+  | nil _ _ => intro ev hev; cases hev
+  | cons _ _ hatt hrest ih =>
+    intro e he
+    rcases List.mem_cons.mp he with rfl | he
+    · exact ⟨(attempt_ok_le hatt).trans hrest.le, (attempt_ok hatt f0 rfl).2.1⟩
+    · exact ih e he
+
+/-- Final state and trace of the loop started with an empty trace. -/
+abbrev loopState (R : Res) (fuel : Nat) (mods : Array Nat) (s : PState) : PState := (augmentLoopR R fuel mods s []).2.1
+abbrev loopTrace (R : Res) (fuel : Nat) (mods : Array Nat) (s : PState) : List Ev := (augmentLoopR R fuel mods s []).2.2
+abbrev loopMods (R : Res) (fuel : Nat) (mods : Array Nat) (s : PState) : Array Nat := (augmentLoopR R fuel mods s []).1
+
+/-- The loop, whatever the order and multiplicity of the module list (as long as it covers the
+trees with pending augments) and whatever the order inside the pending lists, ends — within fuel
+`mu s + 1` — in a state where no pending augment is applicable; its trace is a chain of successful
+attempts, each augment at most once, and the pending sets shrink by exactly the trace. -/
+theorem loop_run (R : Res) (fuel : Nat) (mods : Array Nat) (s : PState) (hn : NodupPending s)
+    (hcov : Cover s mods) (hfuel : mu s < fuel) :
+    Chain R s.forest s.forest (loopTrace R fuel mods s) (loopState R fuel mods s).forest ∧
+    Book s (loopState R fuel mods s) (loopTrace R fuel mods s) ∧
+    Cover (loopState R fuel mods s) (loopMods R fuel mods s) ∧
+    (∀ m ∈ (loopMods R fuel mods s).toList, m ∈ mods.toList) ∧
+    (∀ id, ∀ a ∈ (loopState R fuel mods s).pendingOf id,
+      ¬ (absAug R s.forest id a).Applicable (viewOf (loopState R fuel mods s).forest)) := by
+  obtain ⟨trn, e1, hchain, hbook, _, hsub, hcov', hcomp⟩ := loop_spec R s.forest fuel mods s [] (FLe.refl _) hn hcov
+  have e1' : loopTrace R fuel mods s = trn := by simpa [loopTrace] using e1
+  rw [e1']
+  exact ⟨hchain, hbook, hcov', hsub, hcomp hfuel⟩
+
+/-- In the reference semantics: when the loop leaves no `duplicate-node` error , its final view and its leftover set are THE result
+(`Spec.IsResult`) of the pending set. -/
+theorem loop_isResult (R : Res) (fuel : Nat) (mods : Array Nat) (s : PState) (hn : NodupPending s)
+    (hcov : Cover s mods) (hfuel : mu s < fuel)
+    (hfree : ∀ er, FVisErr (loopState R fuel mods s).forest er → er.cls ≠ "duplicate-node") :
+    Valid (PSet R s.forest s) (viewOf s.forest) ((loopTrace R fuel mods s).map (absEv R s.forest)) ∧
+    Complete (PSet R s.forest s) (viewOf s.forest) ((loopTrace R fuel mods s).map (absEv R s.forest)) ∧
+    viewOf (loopState R fuel mods s).forest =
+      after (viewOf s.forest) ((loopTrace R fuel mods s).map (absEv R s.forest)) ∧
+    (∀ A, PSet R s.forest (loopState R fuel mods s) A ↔
+      (PSet R s.forest s A ∧ A ∉ (loopTrace R fuel mods s).map (absEv R s.forest))) := by
+  obtain ⟨hchain, hbook, _, _, hcomp⟩ := loop_run R fuel mods s hn hcov hfuel
+  have hP : ∀ ev ∈ loopTrace R fuel mods s, PSet R s.forest s (absEv R s.forest ev) :=
+    fun ev hev => ⟨ev.owner, ev.aug, hbook.fromPending ev hev, rfl⟩
+  have hnd := nodup_map_absEv (R := R) (f0 := s.forest) hbook.nodup
+  have hfr := chain_free_of_no_dup_err hchain hfree
+  obtain ⟨hvalid, hview⟩ := chain_valid (PSet R s.forest s) hchain hP hnd hfr
+  have hleft : ∀ A, PSet R s.forest (loopState R fuel mods s) A ↔
+      (PSet R s.forest s A ∧ A ∉ (loopTrace R fuel mods s).map (absEv R s.forest)) := by
+    intro A
+    constructor
+    · rintro ⟨id, a, ha, rfl⟩
+      obtain ⟨h1, h2⟩ := (hbook.pending id a).mp ha
+      exact ⟨⟨id, a, h1, rfl⟩, fun hm => h2 (mem_map_absEv.mp hm)⟩
+    · rintro ⟨⟨id, a, ha, rfl⟩, hnot⟩
+      exact ⟨id, a, (hbook.pending id a).mpr ⟨ha, fun hm => hnot (mem_map_absEv.mpr hm)⟩, rfl⟩
+  refine ⟨hvalid, ?_, hview, hleft⟩
+  intro A hPA hnot
+  obtain ⟨id, a, ha, rfl⟩ := (hleft A).mpr ⟨hPA, hnot⟩
+  rw [← hview]
+  exact hcomp id a ha
+
+/-! ### order independence -/
+
+/-- Two runs of the loop from the same forest over the same pending sets — any two module
+lists (orders, repetitions) covering the pending trees, any order inside each pending list.
+If the first leaves no `duplicate-node` error, then the second never collides either, both end in
+the same view, and both leave the same augments unapplied. -/
+theorem loop_confluent (R : Res) (fuel1 fuel2 : Nat) (mods1 mods2 : Array Nat) (s1 s2 : PState)
+    (hforest : s2.forest = s1.forest) (hpend : ∀ id a, a ∈ s2.pendingOf id ↔ a ∈ s1.pendingOf id)
+    (hn1 : NodupPending s1) (hn2 : NodupPending s2) (hcov1 : Cover s1 mods1) (hcov2 : Cover s2 mods2)
+    (hfuel1 : mu s1 < fuel1) (hfuel2 : mu s2 < fuel2)
+    (hfree : ∀ er, FVisErr (loopState R fuel1 mods1 s1).forest er → er.cls ≠ "duplicate-node") :
+    viewOf (loopState R fuel2 mods2 s2).forest = viewOf (loopState R fuel1 mods1 s1).forest ∧
+    (∀ id a, a ∈ (loopState R fuel2 mods2 s2).pendingOf id ↔ a ∈ (loopState R fuel1 mods1 s1).pendingOf id) ∧
+    (∀ ev ∈ loopTrace R fuel2 mods2 s2, EvFree R s1.forest ev) ∧
+    (∀ x, x ∈ (loopTrace R fuel2 mods2 s2).map Ev.key ↔ x ∈ (loopTrace R fuel1 mods1 s1).map Ev.key) := by
+  obtain ⟨hv1, hc1, hview1, _⟩ := loop_isResult R fuel1 mods1 s1 hn1 hcov1 hfuel1 hfree
+  obtain ⟨_, hbook1, _, _, _⟩ := loop_run R fuel1 mods1 s1 hn1 hcov1 hfuel1
+  obtain ⟨hchain2, hbook2, _, _, hcomp2⟩ := loop_run R fuel2 mods2 s2 hn2 hcov2 hfuel2
+  rw [hforest] at hchain2 hcomp2
+  have hPeq : ∀ A, PSet R s1.forest s2 A ↔ PSet R s1.forest s1 A := by
+    intro A
+    constructor
+    · rintro ⟨id, a, ha, rfl⟩; exact ⟨id, a, (hpend id a).mp ha, rfl⟩
+    · rintro ⟨id, a, ha, rfl⟩; exact ⟨id, a, (hpend id a).mpr ha, rfl⟩
+  have hP2 : ∀ ev ∈ loopTrace R fuel2 mods2 s2, PSet R s1.forest s1 (absEv R s1.forest ev) :=
+    fun ev hev => ⟨ev.owner, ev.aug, (hpend _ _).mp (hbook2.fromPending ev hev), rfl⟩
+  have hnd2 := nodup_map_absEv (R := R) (f0 := s1.forest) hbook2.nodup
+  have hfr1 := chain_free_of_no_dup_err (loop_run R fuel1 mods1 s1 hn1 hcov1 hfuel1).1 hfree
+  have hnd1 : ∀ A ∈ (loopTrace R fuel1 mods1 s1).map (absEv R s1.forest), A.roots.Nodup := by
+    intro A hA
+    obtain ⟨ev, hev, rfl⟩ := List.mem_map.mp hA
+    exact (hfr1 ev hev).1
+  obtain ⟨hv2, hview2, hfr2⟩ := chain_inside (PSet R s1.forest s1) (viewOf s1.forest) (viewOf_prefixClosed _)
+    _ hv1 hc1 hnd1 hchain2 [] trivial rfl hP2 (by simpa using hnd2)
+  simp only [List.nil_append] at hv2 hview2
+  have hc2 : Complete (PSet R s1.forest s1) (viewOf s1.forest) ((loopTrace R fuel2 mods2 s2).map (absEv R s1.forest)) := by
+    rintro A ⟨id, a, ha, rfl⟩ hnot
+    rw [← hview2]
+    apply hcomp2 id a
+    exact (hbook2.pending id a).mpr ⟨(hpend id a).mpr ha, fun hm => hnot (mem_map_absEv.mpr hm)⟩
+  obtain ⟨hA, hB⟩ := confluent (PSet R s1.forest s1) (viewOf s1.forest) _ _ hv1 hc1 hv2 hc2
+  have hkeys : ∀ x, x ∈ (loopTrace R fuel2 mods2 s2).map Ev.key ↔ x ∈ (loopTrace R fuel1 mods1 s1).map Ev.key := by
+    intro x
+    obtain ⟨id, a⟩ := x
+    rw [← mem_map_absEv (R := R) (f0 := s1.forest), ← mem_map_absEv (R := R) (f0 := s1.forest)]
+    exact (hB _).symm
+  refine ⟨?_, ?_, hfr2, hkeys⟩
+  · rw [hview1, hview2]
+    funext l d
+    exact propext (hA l d).symm
+  · intro id a
+    rw [hbook2.pending, hbook1.pending, hpend, hkeys]
+
+/-! ### exactly once -/
+
+/-- Each pending augment is applied at most once, and it is applied exactly when its target
+exists in the final forest as a node that can have children. -/
+theorem loop_exactly_once (R : Res) (fuel : Nat) (mods : Array Nat) (s : PState) (hn : NodupPending s)
+    (hcov : Cover s mods) (hfuel : mu s < fuel) :
+    ((loopTrace R fuel mods s).map Ev.key).Nodup ∧
+    ∀ id, ∀ a ∈ s.pendingOf id,
+      ((id, a) ∈ (loopTrace R fuel mods s).map Ev.key ↔
+        (absAug R s.forest id a).Applicable (viewOf (loopState R fuel mods s).forest)) ∧
+      ((id, a) ∈ (loopTrace R fuel mods s).map Ev.key ↔ a ∉ (loopState R fuel mods s).pendingOf id) := by
+  obtain ⟨hchain, hbook, _, _, hcomp⟩ := loop_run R fuel mods s hn hcov hfuel
+  refine ⟨hbook.nodup, ?_⟩
+  intro id a ha
+  have hleft : (id, a) ∈ (loopTrace R fuel mods s).map Ev.key ↔ a ∉ (loopState R fuel mods s).pendingOf id := by
+    rw [hbook.pending]
+    constructor
+    · intro h hh; exact hh.2 h
+    · intro h
+      apply Classical.byContradiction
+      intro hnot; exact h ⟨ha, hnot⟩
+  refine ⟨?_, hleft⟩
+  constructor
+  · intro hm
+    obtain ⟨ev, hev, hk⟩ := List.mem_map.mp hm
+    simp only [Ev.key, Prod.mk.injEq] at hk
+    obtain ⟨hle, happ⟩ := chain_before_le hchain ev hev
+    have : absEv R s.forest ev = absAug R s.forest id a := by simp [absEv, hk.1, hk.2]
+    rw [this] at happ
+    exact applicable_mono (fun l d h => hle.view h) happ
+  · intro happ
+    apply Classical.byContradiction
+    intro hnot
+    exact hcomp id a (Classical.byContradiction fun h => hnot (hleft.mpr h)) happ
+
+/-- A colliding application (a child name already present, or repeated inside the body) leaves a
+`duplicate-node` error on a visible node of the final forest. -/
+theorem loop_collision_reported (R : Res) (fuel : Nat) (mods : Array Nat) (s : PState) (hn : NodupPending s)
+    (hcov : Cover s mods) (hfuel : mu s < fuel)
+    (ev : Ev) (hev : ev ∈ loopTrace R fuel mods s)
+    (hbad : ¬ (absEv R s.forest ev).roots.Nodup ∨ (absEv R s.forest ev).Collides (viewOf ev.before)) :
+    ∃ er, FVisErr (loopState R fuel mods s).forest er ∧ er.cls = "duplicate-node" := by
+  obtain ⟨hchain, hbook, _, _, _⟩ := loop_run R fuel mods s hn hcov hfuel
+  apply Classical.byContradiction
+  intro hno
+  have hfree : ∀ er, FVisErr (loopState R fuel mods s).forest er → er.cls ≠ "duplicate-node" :=
+    fun er h1 h2 => hno ⟨er, h1, h2⟩
+  have := chain_free_of_no_dup_err hchain hfree ev hev
+  rcases hbad with h | h
+  · exact h this.1
+  · exact this.2 h
 
 end Goyang.Lemmas.Augment
